@@ -152,6 +152,8 @@ def check_dotdot(ctx, prog):
     rp = fn1(prog, 'asl::String::replace', '(const asl::String &,const asl::String &)const')
     ctx.analysed(rp)
     role = 'replace:search restarts after each replaced occurrence'
+    if interp_replace(ctx, prog, rp, role):
+        return
     in_loop = set(id(e) for lp in ir.walk_stmts(rp['body']) if lp.get('k') in ('for', 'while', 'do') for e in ir.stmt_exprs(lp['body']))
     def search_start(e):
         """e searches the pattern from a start position: indexOf(a, i) itself, or a helper that forwards one of its
@@ -234,6 +236,54 @@ def check_dotdot(ctx, prog):
     badw = [(w, l) for w, l in writes if w is None or not restart_form(w)]
     ctx.check(not badw, 'C09.dotdot', rp['pq'], role, fwhere(rp, badw[0][1] if badw else None), 'every search position is (previous match) + (pattern length)',
               'String::replace continues its search from `%s`, not from right after the replaced occurrence (match + pattern length): the single pass that removes ".." is no longer guaranteed to leave none' % (pe(badw[0][0]) if badw and badw[0][0] is not None else 'a stepped index'))
+
+
+def interp_replace(ctx, prog, rp, role):
+    """String::replace(a, b) decided by interpretation (scansim: the text behind str(), the two String arguments and the
+    result String modelled as bounds-checked buffers; indexOf, substring and the members they call interpreted from their
+    bodies) on every text over {., a} up to 7 characters with the patterns "..", ".", "a." replaced by "" and "x": the result
+    must be the left-to-right non-overlapping replacement, in particular no ".." may survive the removal of ".."."""
+    import scansim, itertools
+    bad = None
+    runs = 0
+    pa, pb = rp['params'][0]['id'], rp['params'][1]['id']
+    try:
+        for L in range(0, 8):
+            for t in itertools.product('.a', repeat=L):
+                text = ''.join(t)
+                for pat, rep in (('..', ''), ('..', 'x'), ('.', ''), ('a.', 'x')):
+                    bufs = {'T': [ord(c) for c in text] + [0], ('O', pa): [ord(c) for c in pat] + [0], ('O', pb): [ord(c) for c in rep] + [0]}
+                    r = scansim.Run(prog, rp, bufs, call_ptrs={'str': ('P', 'T', 0)}, methods={'*': 'interp'}, mems={'_len': L}, objects=True)
+                    for pid, val in ((pa, pat), (pb, rep)):
+                        r.objlen[pid] = len(val)
+                        r.strobjs.add(pid)
+                    runs += 1
+                    try:
+                        ret = r.run()
+                    except scansim.OOB as o:
+                        bad = '"%s".replace("%s", "%s"): %s' % (text, pat, rep, o)
+                        break
+                    if ret == ('THIS',):
+                        got = text
+                    elif isinstance(ret, tuple) and ret[0] == 'P' and isinstance(ret[1], tuple) and ret[1][0] == 'O':
+                        out = bufs[ret[1]]
+                        got = ''.join(chr(x & 255) for x in out[:out.index(0)]) if 0 in out else None
+                    else:
+                        raise scansim.Unsupported('result of replace not understood')
+                    want = text.replace(pat, rep)
+                    if got != want:
+                        bad = '"%s".replace("%s", "%s") is "%s", the model gives "%s"%s' % (text, pat, rep, got, want, ': a ".." survives the single pass that removes it from request paths' if pat == '..' and got is not None and '..' in got and rep == '' else '')
+                        break
+                if bad:
+                    break
+            if bad:
+                break
+    except (scansim.Unsupported, TypeError, KeyError, IndexError, ValueError) as ex:
+        ctx.info['replace_interpretation'] = 'outside the interpreted fragment: %s' % ex
+        return False
+    ctx.evaluations += runs
+    ctx.check(bad is None, 'C09.dotdot', rp['pq'], role, fwhere(rp), 'interpreted on %d (text, pattern, replacement) triples over {., a}: result = left-to-right non-overlapping replacement' % runs, 'String::replace: %s' % bad)
+    return True
 
 
 def check_splitidx(ctx, prog):
@@ -524,6 +574,49 @@ def url_decode_lookahead(ctx, prog, RULE):
     return f
 
 
+def interp_url(ctx, prog):
+    """Url::Url(const String&) decided by interpretation (scansim with a model of the String it reads: length, operator[],
+    indexOf, substring bounds-checked) on every string of up to 5 characters over the characters the splitter looks for
+    (`:` `/` `[` `]` `@` and a letter / digit): every substring it cuts has start <= end within the text, every search and
+    every character read stays inside the text.  -> True when decided"""
+    import scansim, itertools
+    fs = [g_ for g_ in prog.fn('asl::Url::Url', '(const asl::String &)') if g_.get('body')]
+    if not fs:
+        return False
+    u = fs[0]
+    pid = u['params'][0]['id']
+    bad = None
+    runs = 0
+    alpha = ':/[]a1@'
+    try:
+        for L in range(0, 6):
+            for t in itertools.product(alpha, repeat=L):
+                text = ''.join(t)
+                if L == 5 and text.count('a') + text.count('1') > 2:
+                    continue            # the plain characters are interchangeable: keep the search small
+                bufs = {('O', pid): [ord(c) for c in text] + [0]}
+                r = scansim.Run(prog, u, bufs, objects=True, methods={'*': 'interp'}, mems={'port': 0})
+                r.objlen[pid] = L
+                r.strobjs.add(pid)
+                r.ignore_string_members = True
+                runs += 1
+                try:
+                    r.run()
+                except scansim.OOB as o:
+                    bad = 'Url("%s"): %s' % (text, o)
+                    break
+            if bad:
+                break
+    except (scansim.Unsupported, TypeError, KeyError, IndexError) as ex:
+        ctx.info['url_interpretation'] = 'outside the interpreted fragment: %s' % ex
+        return False
+    ctx.evaluations += runs
+    ctx.check(bad is None, 'C09.lookahead', u['pq'], 'Url:every cut and every character read stays inside the text', fwhere(u),
+              'interpreted on %d strings of up to 5 characters over `%s`: all substrings have start <= end within the text, searches and reads stay inside it' % (runs, alpha),
+              '%s: a substring is cut with its start behind its end or outside the text (negative length: memcpy with a huge size), or a character / search starts outside the text' % bad)
+    return True
+
+
 def check_lookahead(ctx, prog):
     f = url_decode_lookahead(ctx, prog, 'C09.lookahead')
     # decoded characters are appended only when non-zero (a NUL would hide the rest from the C-string based '..' check)
@@ -543,6 +636,8 @@ def check_lookahead(ctx, prog):
               "Url::decode appends the decoded byte without excluding NUL: '%00' embeds a terminator, and the C-string based \"..\" check of the request path no longer sees what follows it")
     u = fn1(prog, 'asl::Url::Url', '(const asl::String &)')
     ctx.analysed(u)
+    if interp_url(ctx, prog):
+        return          # the guard rules below are the fallback for a body the interpreter cannot follow
     g = q.Guarded(u)
     src = u['params'][0]['id']
     for e in fn_exprs(u):
@@ -669,6 +764,40 @@ def check_lines(ctx, prog):
                 okb = True
             if s_.get('k') == 'if' and q.always_exits(s_['then']) and any(w.get('k') == 'call' and (w.get('pq') or '').endswith('::available') for w in walk_expr(s_['c'])) and any(w.get('k') == 'bin' and w.get('op') in ('<=', '==') and const_val(w['y']) == 0 for w in walk_expr(s_['c'])):
                 okb = True
+    # every blocking read of the body: once it has returned 0 (end of stream) or -1, the same read must not be reachable again
+    bcfg = cfgm.CFG(b)
+    nreads = 0
+    for rd in [n_ for n_ in bcfg.nodes if n_.kind == 'ev' and n_.e is not None and n_.e.get('k') == 'call' and (n_.e.get('pq') or '').split('::')[-1] == 'read' and
+               (n_.e.get('clsp') or '').startswith('asl::Socket') and len(n_.e.get('a', [])) == 2]:
+        nreads += 1
+        # the variable that receives the result (if any)
+        holder = None
+        for w in fn_exprs(b):
+            if w.get('k') == 'bin' and w.get('op') == '=' and strip(w['y']) is rd.e and strip_lv(w['x']).get('k') == 'var':
+                holder = strip_lv(w['x'])['id']
+        spins = None
+        for rv in (0, -1):
+            ev = bounded.Bound(prog, b, ({holder: rv} if holder is not None else {}), {pe(rd.e): rv})
+            seen, work = set(), [m_ for m_, _ in rd.succ]
+            while work:
+                n_ = work.pop()
+                if n_ is rd:
+                    spins = rv
+                    break
+                if n_.id in seen:
+                    continue
+                seen.add(n_.id)
+                want = ev.ev3(n_.e) if n_.kind == 'br' and n_.e is not None else None
+                for m_, lab in n_.succ:
+                    if want is not None and lab in (True, False) and lab != want:
+                        continue
+                    work.append(m_)
+            ctx.evaluations += 1
+            if spins is not None:
+                break
+        ctx.check(spins is None, 'C09.lines', b['pq'], 'readBody:`%s` is not repeated after end of stream' % pe(rd.e)[:40], fwhere(b, rd.line), 'after the read returned <= 0 it is not reachable again',
+                  'HttpMessage::readBody reaches `%s` again after it returned %s: when the peer closes in the middle of the body (inside a chunk) the loop makes no progress and the server thread spins forever on the dead connection' % (pe(rd.e)[:60], spins))
+    ctx.floor('C09.lines body reads', nreads, 1)
     ctx.check(okb, 'C09.lines', b['pq'], 'readBody:leaves the loop when the peer closed', fwhere(b), 'readable with nothing available -> break',
               'readBody keeps waiting when the socket is readable but nothing is available (peer closed before Content-Length bytes arrived): the request never completes')
 
